@@ -45,6 +45,14 @@ type Arr [2]int
 var reservedNames = []string{"f", "err", "v", "g", "in", "out", "this", "list", "success", "p", "m", "h"}
 
 func (s FSig) pname(i int, mode string) string {
+	if strings.HasPrefix(mode, "names:") {
+		// explicit names: "names:last,x,y"; positions beyond the list are called q<i>
+		ns := strings.Split(strings.TrimPrefix(mode, "names:"), ",")
+		if i < len(ns) && ns[i] != "" {
+			return ns[i]
+		}
+		return fmt.Sprintf("q%d", i)
+	}
 	switch mode {
 	case "blank":
 		return "_"
@@ -52,6 +60,12 @@ func (s FSig) pname(i int, mode string) string {
 		return reservedNames[i%len(reservedNames)]
 	case "unnamed":
 		return ""
+	case "paramlike2":
+		// descending generator-like names with blanks in between: func(param_2 T, _ U, param_0 V)
+		if i%2 == 1 {
+			return "_"
+		}
+		return fmt.Sprintf("param_%d", (7-i)%3)
 	case "paramlike":
 		// user names that look like the names the generator mints for renamed parameters, shifted by one
 		return fmt.Sprintf("param_%d", i+1)
@@ -212,7 +226,7 @@ func PlumbItem(id, kind string, s FSig) FItem {
 		fmt.Fprintf(&body, "\t\t\theld, heldLast = w, %s\n\t\t\tt.Reset()\n\t\t\t%sw(%s)\n", as[n-1], assign(rs), join(as[:n-1]))
 	case "uncurry":
 		innerMode := s.Mode
-		if innerMode == "paramlike" {
+		if strings.HasPrefix(innerMode, "paramlike") {
 			innerMode = "unnamed" // outer parameter called param_1, inner parameters need renaming
 		}
 		inner := ftypeOf(s.P[1:], 1, s.R, innerMode)
